@@ -7,7 +7,7 @@
 //! three instrument flavours (MarketDataInstrument, Keyed<_, MarketDataInstrument>, MarketInstrumentData<_>).
 //! The venue side (how a venue names a market in its messages, payload layouts, exchange ids) is modelled HERE,
 //! independently of the connector code.
-use crate::{eng::Rng, report};
+use crate::{rng::Rng, report};
 use barter_data::{
     ExchangeWsStream, Identifier,
     error::DataError,
